@@ -139,7 +139,7 @@ class Check:
         d = os.path.join(VERIF, 'replays', self.pid)
         os.makedirs(d, exist_ok=True)
         path = os.path.join(d, re.sub(r'[^A-Za-z0-9_]', '_', q.name) + '.json')
-        json.dump({'property': self.pid, 'query': q.name, 'harness': [os.path.relpath(s, VERIF) for s in q.srcs], 'defines': q.defines + q.cbmc_defines, 'stl': q.stl, 'native_extra': [r for r in ('rt/cube.c',) if os.path.basename(r) in q.rt],
+        json.dump({'property': self.pid, 'query': q.name, 'harness': [os.path.relpath(s, VERIF) for s in q.srcs], 'defines': q.defines + q.cbmc_defines, 'stl': q.stl, 'native_extra': [r for r in ('rt/cube.c',) if os.path.basename(r) in q.rt], 'native_cpp': (['rt/rt_native_fs.cpp'] if 'rt_fs.c' in q.rt else []),
                    'failed_assertion': desc, 'nondet': values, 'repo_srcs': getattr(q, 'native_repo_srcs', []), 'shim': getattr(q, 'native_shim', False),
                    'native_defines': getattr(q, 'native_defines', [])}, open(path, 'w'), indent=1)
         return path
@@ -152,6 +152,7 @@ class Check:
         exe = self.ws.path('replay_%s' % os.path.basename(path).replace('.json', ''))
         srcs = [os.path.join(VERIF, s) for s in rp['harness']] + [os.path.join(VERIF, 'rt', 'rt_native.cpp')] + list(extra_srcs)
         srcs += [os.path.join(repo, s) for s in rp.get('repo_srcs', [])]
+        srcs += [os.path.join(VERIF, s) for s in rp.get('native_cpp', [])]
         shimflags = []
         if rp.get('shim'):
             # schedule replay: <mutex>/<condition_variable>/<thread> come from /verif/shim (cooperative pthreads driven by the recorded schedule)
@@ -184,7 +185,7 @@ class Check:
                     f.write('%s\n' % v['value'])
         env = dict(os.environ, VF_REPLAY=vals, VF_SCHEDULE=schedf, ASAN_OPTIONS='detect_leaks=1:abort_on_error=0:exitcode=42:detect_stack_use_after_return=1', UBSAN_OPTIONS='print_stacktrace=1')
         try:
-            r = subprocess.run([exe], capture_output=True, text=True, timeout=timeout, env=env)
+            r = subprocess.run([exe], capture_output=True, text=True, errors='replace', timeout=timeout, env=env)
         except subprocess.TimeoutExpired:
             return False, 'native replay timed out'
         out = (r.stdout + r.stderr)[-4000:]
@@ -199,7 +200,7 @@ class Check:
                 self.broken.append('%s: %s %s' % (q.name, r.status, r.log[-300:].replace('\n', ' ')))
                 continue
             if r.status == 'UNWIND':
-                self.broken.append('%s: unwinding assertion failed (bound too small): %s' % (q.name, [d for _, d in r.failed][:3]))
+                self.broken.append('%s: unwinding assertion failed (bound too small): %s' % (q.name, [str(p_) for p_, d in r.failed if 'unwinding' in d][:4]))
                 continue
             bound_fail = [d for _, d in r.failed if d.startswith('BOUND:')]
             if bound_fail:
